@@ -68,7 +68,8 @@ def floors(tier):
     if tier == 'quick':
         f.update({'subcase:judged': 250, 'probe:strong': 180, 'build:make': 100,
                   'calibration:reference-build': 450,
-                  'probe:pair-vs-reference': 30, 'mix:judged': 10,
+                  'probe:pair-vs-reference': 50, 'multi:judged': 20,
+                  'mix:judged': 10,
                   'mix:multi-then-single': 6,
                   'distinct_nontrivial': 180, 'lang:c': 120, 'lang:c++': 120})
     else:
@@ -141,6 +142,8 @@ def places_for(opt, val, site):
         if opt == 'pch':
             return ['kwarg_c']
         p = ['global', 'target', 'object']
+        if opt == 'raw':
+            return p + ['toolchain', 'cflags']
         if opt in ('include', 'sysinclude'):
             p.append('kwarg_c')
         if opt != 'static':
@@ -199,6 +202,44 @@ def _item(opt, val, place):
     return {'opt': opt, 'val': val, 'place': place}
 
 
+def multiplicity_lists(lang, tier='thorough'):
+    I = _item
+    s1, s2 = ('c99', 'c11') if lang == 'c' else ('c++11', 'c++17')
+    out = [
+        [I('sysinclude', '-', 'kwarg_c'), I('sysinclude', '-', 'kwarg_c')],
+        [I('sysinclude', '-', 'target'), I('sysinclude', '-', 'target'),
+         I('sysinclude', '-', 'target')],
+        [I('sysinclude', '-', 'global'), I('sysinclude', '-', 'global')],
+        [I('sysinclude', '-', 'object'), I('sysinclude', '-', 'kwarg_c')],
+        [I('sysinclude', '-', 'kwarg_c'), I('sysinclude', '-', 'kwarg_c'),
+         I('pch', '-', 'kwarg_c')],
+        [I('include', '-', 'kwarg_c'), I('include', '-', 'kwarg_c')],
+        [I('include', '-', 'target'), I('sysinclude', '-', 'target'),
+         I('include', '-', 'target')],
+        [I('define', 'int', 'target'), I('define', 'none', 'target'),
+         I('define', 'docstr', 'target')],
+        [I('define', 'dupA', 'target'), I('define', 'dupB', 'target')],
+        [I('define', 'dupA', 'global'), I('define', 'dupB', 'target')],
+        [I('raw', 'O3-O0-O3', 'target')], [I('raw', 'O0-O3-O0', 'object')],
+        [I('raw', 'O3-O0-O3', 'global')], [I('raw', 'include2', 'target')],
+        [I('raw', 'include2', 'global')], [I('raw', 'D1-D2', 'target')],
+        [I('raw', 'include2', 'target'), I('pch', '-', 'kwarg_c')],
+        [I('raw', 'O3-O0-O3', 'target'), I('pch', '-', 'kwarg_c')],
+        [I('raw', 'include2', 'target'), I('pic', 'implicit', 'shlib')],
+        [I('optimize', 'speed', 'cflags'), I('optimize', 'disable', 'global'),
+         I('optimize', 'speed', 'target')],
+        [I('optimize', 'disable', 'cflags'), I('optimize', 'speed', 'global'),
+         I('optimize', 'disable', 'object')],
+        [I('std', s1, 'cflags'), I('std', s2, 'global'), I('std', s1, 'target')],
+        [I('warning', 'all+error', 'cflags'), I('warning', 'disable', 'global'),
+         I('warning', 'all+error', 'target')],
+    ]
+    if tier == 'quick':
+        # the cheaper half; every kind of multiplicity stays represented
+        out = [out[i] for i in (0, 1, 2, 4, 5, 7, 8, 10, 13, 15, 16, 19, 21)]
+    return out
+
+
 def gen_subs(tier, seed):
     rng = core.rng_for(seed, 'c16', tier)
     subs = []
@@ -248,6 +289,13 @@ def gen_subs(tier, seed):
                     subs.append({'compiler': compiler, 'lang': lang,
                                  'items': [_item(a[0], a[1], place),
                                            _item('pic', 'implicit', 'shlib')]})
+    # ---- multiplicities: several values of one option kind (and repeated raw
+    # tokens) reaching ONE compile step / one precompiled-header step, and the
+    # same option at environment + global + target level (last level wins)
+    for compiler in compilers:
+        for lang in ('c', 'c++'):
+            for items in multiplicity_lists(lang, tier):
+                subs.append({'compiler': compiler, 'lang': lang, 'items': items})
     # ---- pairs
     if tier == 'thorough':
         for compiler in compilers:
@@ -291,8 +339,9 @@ def cases(tier, seed):
             order.append(key)
         groups[key].append(s)
     n = 0
-    # expensive project-level groups first so that the tail of the run is short
-    order.sort(key=lambda k: (0 if k[1] else 1))
+    # the big packs (long, sequential reference builds) first, the many small
+    # project-level groups after them, so that the tail of the run is short
+    order.sort(key=lambda k: -len(groups[k]))
     for key in order:
         g = groups[key]
         for i in range(0, len(g), PACK):
@@ -312,10 +361,14 @@ def q(s):
     return repr(s)
 
 
-def bfg_expr(item, idx, tag):
+def bfg_expr(item, idx, tag, src=''):
     opt, val = item['opt'], item['val']
+    if opt == 'raw':
+        return ', '.join(q(x.replace('@SRC@', src)) for x in R.RAW[val])
     if opt == 'define':
-        name = 'VFD%d' % idx
+        name = R.def_name(idx, val)
+        if val in ('dupA', 'dupB'):
+            return 'opts.define(%s, %s)' % (q(name), q('1' if val == 'dupA' else '2'))
         return {'none': 'opts.define(%s)' % q(name),
                 'int': 'opts.define(%s, %s)' % (q(name), q('42')),
                 'docstr': 'opts.define(%s, %s)' % (q(name), q(R.DOCSTR)),
@@ -363,7 +416,7 @@ def render_sub(sub, src):
     for idx, it in enumerate(items):
         place = it['place']
         if place in ('target', 'object'):
-            c.append(bfg_expr(it, idx, tag))
+            c.append(bfg_expr(it, idx, tag, src))
         elif place == 'link':
             l.append(bfg_expr(it, idx, tag))
         elif place == 'fwd':
@@ -462,7 +515,7 @@ def render_project(case, src):
         if place == 'global':
             for lang in langs:
                 lines.append('global_options([%s], lang=%s)'
-                             % (bfg_expr(it, idx, first['tag']), q(lang)))
+                             % (bfg_expr(it, idx, first['tag'], src), q(lang)))
             continue
         if place == 'global_link':
             lines.append('global_link_options([%s])'
@@ -664,6 +717,10 @@ def judge_sub(case, sub, shape, src, bld, refroot, index, make_out, env, res,
     res.ev('subcase:judged')
     if not single:
         res.ev('pair:judged')
+    if len(items) > 2 or (len(items) == 2 and len(set(
+            (i['opt'], i['place']) for i in items)) == 1) or \
+            any(i['opt'] == 'raw' for i in items):
+        res.ev('multi:judged')
     if single:
         res.ev('probe:strong' if strong else 'probe:weak')
         res.ev('%s:%s@%s' % ('strong' if strong else 'weak', items[0]['opt'],
